@@ -199,6 +199,7 @@ mpn_gcd (mp_ptr gp, mp_ptr up, mp_size_t usize, mp_ptr vp, mp_size_t n)
       mp_size_t matrix_scratch = MPN_HGCD_MATRIX_INIT_ITCH (n - p);
       mp_size_t nn;
       mpn_hgcd_matrix_init (&M, n - p, tp);
+      MPIR_VERIF_HIT (MPIR_VERIF_GCD_HGCD_STEP);
       nn = mpn_hgcd (up + p, vp + p, n - p, &M, tp + matrix_scratch);
       if (nn > 0)
 	{
@@ -210,6 +211,7 @@ mpn_gcd (mp_ptr gp, mp_ptr up, mp_size_t usize, mp_ptr vp, mp_size_t n)
       else
 	{
 	  /* Temporary storage n */
+	  MPIR_VERIF_HIT (MPIR_VERIF_GCD_SUBDIV_STEP);
 	  n = mpn_gcd_subdiv_step (up, vp, n, 0, gcd_hook, &ctx, tp);
 	  if (n == 0)
 	    goto done;
